@@ -42,34 +42,21 @@ def check_from_hash(cx):
     cx.add('F-HTR', 'plus-one', r.startswith('mod_n_add(') and r.endswith(', SM9_ONE)'), 'result = (Ha mod (N-1)) + 1 computed as mod_n_add(x, 1)', fn.loc())
     cx.add('F-HTR', 'modulus', 'SM9_N_MINUS_ONE)' in r and 'SM9_U256_N_MINUS_ONE_BARRETT_MU' in r and 'u256_sub(' in r,
            'x = low256(Ha) - q*(N-1) with q estimated through the Barrett constant of N-1', fn.loc())
-    # 5 big-endian 64-bit words from offsets 0,8,..,32 -> z[4-i]
-    ok = False
-    for b in FR.calls_of(fn, 'getu64'):
-        a = FR.arg_canon(fn, P, cn, b, 0)
-        if a == 'index($ha, RangeFrom::RangeFrom{MulWithOverflow(8, each(Range::Range{0, 5})).0})':
-            ok = True
-    cx.add('F-HTR', 'words', ok, 'exactly the first 40 bytes of Ha are read as 5 big-endian 64-bit words (offset 8*i, i in 0..5)', fn.loc())
-    # store index 4 - i
-    st_ok = False
-    for b, i, st in fn.stmts():
-        if st['k'] == 'assign' and st['lhs']['p'] and isinstance(st['lhs']['p'][-1], dict) and 'idx' in st['lhs']['p'][-1]:
-            ie = cn.c(norm(P.local(st['lhs']['p'][-1]['idx'], b, i)))
-            if ie == 'SubWithOverflow(4, each(Range::Range{0, 5})).0' and 'getu64' in cn.c(norm(P.rvalue(st['rv'], b, i, 0))):
-                st_ok = True
-        elif st['k'] == 'assign' and st['lhs']['p'] == ['deref']:
-            # `*limb = getu64(..)` with limb the element of z.iter_mut().rev().enumerate(): the same store in index form
-            tgt = cn.c(norm(P.local(st['lhs']['l'], b, i)))
-            v = cn.c(norm(P.rvalue(st['rv'], b, i, 0)))
-            if tgt.endswith('[SubWithOverflow(4, each(Range::Range{0, 5})).0]') and v == 'getu64(index($ha, RangeFrom::RangeFrom{MulWithOverflow(8, each(Range::Range{0, 5})).0}))':
-                st_ok = True
-    cx.add('F-HTR', 'order', st_ok, 'word i is stored at limb 4-i (most significant word first)', fn.loc())
-    g = cx.fn('gm_sm9::fields::getu64', 'F-HTR')
-    if g is not None:
-        Pg = Prov(g, cx.F); cg = Canon(g, Pg)
-        rets = [(b, i, st) for b, i, st in g.stmts() if st['k'] == 'assign' and st['lhs']['l'] == 0 and not st['lhs']['p']]
-        calls = [t['fn']['name'] for _, t in g.calls()]
-        cx.add('F-HTR', 'getu64', any('<impl u64>::from_be_bytes' in c for c in calls) and any(FR.arg_canon(g, Pg, cg, b, 1) == 'index($bytes, RangeTo::RangeTo{8})' for b in FR.calls_of(g, 'copy_from_slice')),
-               'getu64 = u64::from_be_bytes(bytes[..8])', g.loc())
+    # 5 big-endian 64-bit words from offsets 0,8,..,32 -> z[4-i]: the limb stores, whatever loop form fills them
+    # (index loop, iter_mut().rev().enumerate(), zip with chunks_exact(8); the one-line reader getu64 is looked through)
+    import re as _re
+    I5 = 'each(Range::Range{0, 5})'
+    def nrm(v):
+        v = v.replace('MulWithOverflow(%s, 8).0' % I5, 'MulWithOverflow(8, %s).0' % I5)
+        v = v.replace('index($ha, RangeTo::RangeTo{40})', '$ha')
+        return v
+    zs = [(nrm(a_), nrm(v_)) for a_, v_ in _I.stores(fn, cx.F, 'z')]
+    want_v = 'from_be_bytes:u64([index($ha, Range::Range{MulWithOverflow(8, %s).0, AddWithOverflow(MulWithOverflow(8, %s).0, 8).0})])' % (I5, I5)
+    limb_stores = [(a_, v_) for a_, v_ in zs if 'from_be_bytes' in v_ or '$ha' in v_]
+    cx.add('F-HTR', 'words', bool(limb_stores) and all(v_ == want_v for _, v_ in limb_stores),
+           'exactly the first 40 bytes of Ha are read as 5 big-endian 64-bit words (bytes 8i..8i+8, i in 0..5): %s' % [FR.short(v_, 120) for _, v_ in limb_stores], fn.loc())
+    cx.add('F-HTR', 'order', bool(limb_stores) and all(a_ == 'SubWithOverflow(4, %s).0' % I5 for a_, _ in limb_stores),
+           'word i is stored at limb 4-i (most significant word first): %s' % [a_ for a_, _ in limb_stores], fn.loc())
     s = pa.sm9()
     K.k_ints(cx, 'K-SM9-BARRETT', 'gm_sm9', {'SM9_U256_N_MINUS_ONE_BARRETT_MU': s.consts['SM9_U256_N_MINUS_ONE_BARRETT_MU'], 'SM9_N_MINUS_ONE': s.n - 1, 'SM9_ONE': 1, 'SM9_N': s.n, 'SM9_N_NEG': (1 << 256) - s.n})
 
